@@ -5,11 +5,15 @@ go 1.25.7
 require (
 	github.com/anyproto/any-store v0.4.7
 	github.com/anyproto/any-sync v0.0.0
+	github.com/cespare/xxhash v1.1.0
 	github.com/golang/snappy v1.0.0
+	github.com/huandu/skiplist v1.2.1
 	github.com/ipfs/go-cid v0.6.2
 	github.com/multiformats/go-multibase v0.3.0
 	github.com/multiformats/go-multihash v0.2.3
+	github.com/zeebo/blake3 v0.2.4
 	go.uber.org/zap v1.28.0
+	golang.org/x/exp v0.0.0-20260718201538-764159d718ef
 	google.golang.org/protobuf v1.36.11
 	storj.io/drpc v1.0.0
 )
@@ -23,7 +27,6 @@ require (
 	github.com/anyproto/go-sqlite v1.4.2-any // indirect
 	github.com/anyproto/lexid v0.0.6 // indirect
 	github.com/beorn7/perks v1.0.1 // indirect
-	github.com/cespare/xxhash v1.1.0 // indirect
 	github.com/cespare/xxhash/v2 v2.3.0 // indirect
 	github.com/cheggaaa/mb/v3 v3.0.3 // indirect
 	github.com/davecgh/go-spew v1.1.1 // indirect
@@ -38,7 +41,6 @@ require (
 	github.com/golang/freetype v0.0.0-20170609003504-e2365dfdc4a0 // indirect
 	github.com/google/uuid v1.6.0 // indirect
 	github.com/hashicorp/yamux v0.1.2 // indirect
-	github.com/huandu/skiplist v1.2.1 // indirect
 	github.com/jbenet/go-temp-err-catcher v0.1.0 // indirect
 	github.com/klauspost/cpuid/v2 v2.4.0 // indirect
 	github.com/libp2p/go-buffer-pool v0.1.0 // indirect
@@ -62,12 +64,10 @@ require (
 	github.com/stretchr/testify v1.11.1 // indirect
 	github.com/tetratelabs/wazero v1.10.1 // indirect
 	github.com/valyala/fastjson v1.6.10 // indirect
-	github.com/zeebo/blake3 v0.2.4 // indirect
 	github.com/zeebo/errs v1.3.0 // indirect
 	go.uber.org/atomic v1.11.0 // indirect
 	go.uber.org/multierr v1.11.0 // indirect
 	golang.org/x/crypto v0.54.0 // indirect
-	golang.org/x/exp v0.0.0-20260718201538-764159d718ef // indirect
 	golang.org/x/image v0.21.0 // indirect
 	golang.org/x/net v0.57.0 // indirect
 	golang.org/x/sys v0.47.0 // indirect
